@@ -161,16 +161,19 @@ example : (b "2" ≠ []) ∧ (∀ d ∈ b "2", isDigit d = true) ∧ (∀ x ∈ 
 /-- `assemble_linebreak`: while a keyword is being assembled (RawKeyword state `k`, record
 buffer `buf`), a line `a ++ s ++ b` may be written as the two lines `a`, `b` (`s` a
 separator run outside quotes, no terminating slash in `a`, neither part mistaken for the
-next keyword while the keyword could already be complete): the raw keyword that results —
-records as token lists, termination — and the lines left for the next keyword are equal. -/
+next keyword while the keyword could already be complete; `hma`, `hmb`: both are lines of
+text, not the model's end-of-file marker — true of every cleaned line): the raw keyword that
+results — records as token lists, termination — and the lines left for the next keyword are
+equal. -/
 theorem assemble_linebreak (recog : Bytes → Bool) (k : Kw) (hraw : k.raw = false)
     (buf gap a s rest' : Bytes) (rest : List Bytes)
     (hane : a ≠ []) (hbne : rest' ≠ []) (hs : s ≠ []) (hsep : ∀ c ∈ s, isSep c = true)
     (ha : BalancedNoSlash a) (hout : OutsideP (extendBuf buf gap a))
     (hra : (k.canComplete && recog (makeDeckName a)) = false)
-    (hrb : (k.canComplete && recog (makeDeckName rest')) = false) :
+    (hrb : (k.canComplete && recog (makeDeckName rest')) = false)
+    (hma : a ≠ eofMark) (hmb : rest' ≠ eofMark) :
     feedLines recog k buf gap ((a ++ s ++ rest') :: rest) = feedLines recog k buf gap (a :: rest' :: rest) :=
-  OpmVerif.RawKw.assemble_linebreak recog k hraw buf gap a s rest' rest hane hbne hs hsep ha hout hra hrb
+  OpmVerif.RawKw.assemble_linebreak recog k hraw buf gap a s rest' rest hane hbne hs hsep ha hout hra hrb hma hmb
 
 /-- An empty cleaned line — a blank, whitespace-only or comment-only line of the source —
 anywhere inside a keyword (between records, or between the lines of a record outside a
@@ -231,28 +234,29 @@ example : parseItems demoConv demoSchema [b "'W 1'", b "2*5"] =
 
 /-! ### splitting over INCLUDE files -/
 
-/-- `include_splice`: wherever the keyword loop (`parseState`) stands at a keyword boundary —
-any deck parsed so far, any remaining input — the lines `INCLUDE` / `'path' /` are
-equivalent to the cleaned lines of the named file spliced in front of the remaining input.
-So moving whole keywords into an INCLUDE file (and, by iterating, nested includes) does not
-change the Deck. -/
-theorem include_splice (cv : Conv) (tbl : Table) (recog : Bytes → Bool) (files : Bytes → Option Bytes)
+/-- `include_splice` (step form): wherever the keyword loop (`parseState`) stands at a keyword
+boundary — any deck parsed so far, any PATHS aliases, any remaining input — the lines
+`INCLUDE` / `'path' /` are equivalent to the cleaned lines of the named file, followed by the
+end-of-file marker of the model, spliced in front of the remaining input (nested includes by
+iterating).  The whole-text statements are `include_splice_text` and `relayout_deck`. -/
+theorem include_splice (cv : Conv) (tbl : Table) (recog : Bytes → Bool)
+    (files : List (Bytes × Bytes) → Bytes → Option Bytes)
     (htbl : lookup tbl nameINCLUDE = some includeDef)
-    (path content : Bytes) (hfile : files path = some content)
+    (al : List (Bytes × Bytes)) (path content : Bytes) (hfile : files al path = some content)
     (hq : ∀ c ∈ path, c ≠ 39) (hsafe : LineSafe (quoted path))
     (fuel : Nat) (deck : DeckT) (rest : List Bytes) :
-    parseLoop cv tbl recog files (fuel + 1) deck (nameINCLUDE :: recordLine [quoted path] :: rest) =
-      parseLoop cv tbl recog files fuel deck (splitLines (fastClean (content ++ [10])) ++ rest) :=
-  OpmVerif.Deck.include_splice cv tbl recog files htbl path content hfile hq hsafe fuel deck rest
+    parseLoop cv tbl recog files (fuel + 1) al deck (nameINCLUDE :: recordLine [quoted path] :: rest) =
+      parseLoop cv tbl recog files fuel al deck (splitLines (fastClean (content ++ [10])) ++ eofMark :: rest) :=
+  OpmVerif.Deck.include_splice cv tbl recog files htbl al path content hfile hq hsafe fuel deck rest
 
 def demoTable : Table :=
   [(b "INCLUDE", includeDef),
    (b "DIMENS", ⟨.fixed 1, false, none, [[⟨.int, false, none⟩, ⟨.int, false, none⟩, ⟨.int, false, none⟩]], false, false⟩),
    (b "OIL", ⟨.fixed 0, false, none, [], false, false⟩)]
 
-def demoFiles (p : Bytes) : Option Bytes := if p = b "/d/grid.inc" then some (b "DIMENS\n 10 10 3 / -- from the file") else none
+def demoFiles (_ : List (Bytes × Bytes)) (p : Bytes) : Option Bytes := if p = b "/d/grid.inc" then some (b "DIMENS\n 10 10 3 / -- from the file") else none
 
-example : lookup demoTable nameINCLUDE = some includeDef ∧ demoFiles (b "/d/grid.inc") ≠ none ∧
+example : lookup demoTable nameINCLUDE = some includeDef ∧ demoFiles [] (b "/d/grid.inc") ≠ none ∧
     (∀ c ∈ b "/d/grid.inc", c ≠ 39) := by decide +kernel
 
 example : LineSafe (quoted (b "/d/grid.inc")) :=
